@@ -38,7 +38,15 @@ __CPROVER_requires(VERIF_ANY_DIALECT || (fmon_phase == FPH_START && fmon_lines =
 __CPROVER_requires(VERIF_ANY_DIALECT || (mon_indent_run == 0 && !g_read_error_happened))
 __CPROVER_requires(G_DIAG_ROOM_L3)
 __CPROVER_assigns(L3_GHOST_FRAME)
+#if VERIF_ANY_DIALECT
+L3_ENSURES_NOFF
+#else
 L3_ENSURES
+#endif
+#if VERIF_ANY_DIALECT
+/* main-level bookkeeping (definitional): g_file_failures counts the input files whose decoding failed */
+__CPROVER_ensures(g_file_failures == __CPROVER_old(g_file_failures) + (__CPROVER_return_value ? 0ul : 1ul))
+#endif
 ;
 
 static bool set_listo(const char *s, int *listo)
@@ -46,6 +54,7 @@ __CPROVER_requires(s != NULL)
 __CPROVER_requires(__CPROVER_is_fresh(s, 16) && s[15] == 0)
 __CPROVER_requires(__CPROVER_is_fresh(listo, sizeof(*listo)) && G_DIAG_ROOM)
 __CPROVER_assigns(*listo, G)
+__CPROVER_ensures(g_file_failures == __CPROVER_old(g_file_failures))
 __CPROVER_ensures(g_diag >= __CPROVER_old(g_diag) && g_diag <= __CPROVER_old(g_diag) + 2)
 __CPROVER_ensures(__CPROVER_return_value ==> (0 <= *listo && *listo <= 7 && g_diag == __CPROVER_old(g_diag)))
 __CPROVER_ensures(!__CPROVER_return_value ==> (*listo == __CPROVER_old(*listo) && g_diag > __CPROVER_old(g_diag)))
@@ -55,6 +64,7 @@ __CPROVER_ensures(g_wfail == __CPROVER_old(g_wfail))
 bool print_dialects(FILE *f, const char *default_dialect_name)
 __CPROVER_requires(G_DIAG_ROOM && !mon_on)
 __CPROVER_assigns(G)
+__CPROVER_ensures(g_file_failures == __CPROVER_old(g_file_failures))
 __CPROVER_ensures(g_diag >= __CPROVER_old(g_diag) && g_diag <= __CPROVER_old(g_diag) + 64)
 /* C11: success implies every write was accepted */
 __CPROVER_ensures((__CPROVER_return_value && f == stdout) ==> g_wfail == __CPROVER_old(g_wfail))
@@ -66,6 +76,7 @@ bool internal_dump_all_dialects(const char *file_name)
 __CPROVER_requires(file_name != NULL)                   /* C08: handed to strcmp and fopen */
 __CPROVER_requires(G_DIAG_ROOM && !mon_on)
 __CPROVER_assigns(G)
+__CPROVER_ensures(g_file_failures == __CPROVER_old(g_file_failures))
 __CPROVER_ensures(g_diag >= __CPROVER_old(g_diag) && g_diag <= __CPROVER_old(g_diag) + 8)
 __CPROVER_ensures(__CPROVER_return_value ==> g_wfail == __CPROVER_old(g_wfail))
 __CPROVER_ensures(!__CPROVER_return_value ==> g_diag > __CPROVER_old(g_diag))
@@ -76,19 +87,21 @@ __CPROVER_ensures(!__CPROVER_return_value ==> g_diag > __CPROVER_old(g_diag))
 int wrapped_main(int argc, char *argv[])
 __CPROVER_requires(argc >= 1 && argc <= VERIF_ARGC_MAX && argc == verif_argc && verif_optind == 1)
 __CPROVER_requires(argv == h_argv)     /* harness: argv[i] -> 16-byte NUL-terminated unconstrained strings */
-__CPROVER_requires(!mon_on && !fmon_on && g_diag < (1ul << 40))
+__CPROVER_requires(!mon_on && !fmon_on && g_diag < (1ul << 40) && g_file_failures < (1ul << 40))
 __CPROVER_requires(g_len <= VERIF_FILE_MAX && g_lines_listed < (1ul << 30))
 __CPROVER_assigns(G, GL, GF, verif_optind, verif_optarg, __CPROVER_object_whole(verif_optarg_obj))
 __CPROVER_ensures(__CPROVER_return_value == 0 || __CPROVER_return_value == 1)
 __CPROVER_ensures(g_diag >= __CPROVER_old(g_diag) && g_diag <= __CPROVER_old(g_diag) + 4096)
 __CPROVER_ensures(__CPROVER_return_value == 1 ==> g_diag > __CPROVER_old(g_diag))
 __CPROVER_ensures(__CPROVER_return_value == 0 ==> g_wfail == __CPROVER_old(g_wfail))
+/* C09: exit status 0 only if every input file was opened, decoded and closed successfully */
+__CPROVER_ensures(__CPROVER_return_value == 0 ==> g_file_failures == __CPROVER_old(g_file_failures))
 ;
 
 int main(int argc, char *argv[])
 __CPROVER_requires(argc >= 1 && argc <= VERIF_ARGC_MAX && argc == verif_argc && verif_optind == 1)
 __CPROVER_requires(argv == h_argv)     /* harness: argv[i] -> 16-byte NUL-terminated unconstrained strings */
-__CPROVER_requires(!mon_on && !fmon_on && g_diag < (1ul << 40))
+__CPROVER_requires(!mon_on && !fmon_on && g_diag < (1ul << 40) && g_file_failures < (1ul << 40))
 __CPROVER_requires(g_len <= VERIF_FILE_MAX && g_lines_listed < (1ul << 30))
 __CPROVER_assigns(G, GL, GF, verif_optind, verif_optarg, __CPROVER_object_whole(verif_optarg_obj))
 __CPROVER_ensures(__CPROVER_return_value == 0 || __CPROVER_return_value == 1)
